@@ -42,6 +42,7 @@ fn run(a: &[String]) -> String {
         "inspector_balance" => scenarios::inspector_balance(),
         "evm_leak" => scenarios::evm_leak(&a[1]),
         "transfer_sum" => scenarios::transfer_sum(&a[1]),
+        "warm_kernel" => scenarios::warm_kernel(),
         "cachedb_read_policy" => scenarios::cachedb_read_policy(),
         "static_value_call" => scenarios::static_value_call(&a[1]),
         "call_flag" => scenarios::call_flag(&a[1], a[2] == "true"),
